@@ -401,8 +401,12 @@ def floordiv(x, y, out=None, out_like=None, sizing='optimal', method='raw', **kw
         return real_part + 1j*imag_part
     
     def _floordiv_raw(x, y, n_frac):
-        precision_cast = (lambda m: np.array(m, dtype=object)) if n_frac >= _n_word_max else (lambda m: m)
-        return ((x.val * precision_cast(2**(n_frac - x.n_frac))) // (y.val * precision_cast(2**(n_frac - y.n_frac)))) * precision_cast(2**n_frac)
+        # integer quotient of the raw values aligned on the finer fractional size (no float factor, no int64 wrap),
+        # then expressed with the fractional size of the result
+        n_frac_align = max(x.n_frac, y.n_frac)
+        raw_cast = _raw_cast(x, y, max(x.n_word + n_frac_align - x.n_frac, y.n_word + n_frac_align - y.n_frac))
+        quotient = utils.scale_raw(raw_cast(x.val), n_frac_align - x.n_frac) // utils.scale_raw(raw_cast(y.val), n_frac_align - y.n_frac)
+        return utils.scale_raw(quotient, n_frac)
 
     def _floordiv_raw_complex(x, y, n_frac):
         precision_cast = (lambda m: np.array(m, dtype=object)) if n_frac >= _n_word_max else (lambda m: m)
@@ -475,8 +479,8 @@ def mod(x, y, out=None, out_like=None, sizing='optimal', method='raw', **kwargs)
     def _mod_repr(x, y):
         return x % y
     def _mod_raw(x, y, n_frac):
-        precision_cast = (lambda m: np.array(m, dtype=object)) if n_frac >= _n_word_max else (lambda m: m)
-        return (x.val * precision_cast(2**(n_frac - x.n_frac))) % (y.val * precision_cast(2**(n_frac - y.n_frac)))
+        raw_cast = _raw_cast(x, y, max(x.n_word + n_frac - x.n_frac, y.n_word + n_frac - y.n_frac))
+        return utils.scale_raw(raw_cast(x.val), n_frac - x.n_frac) % utils.scale_raw(raw_cast(y.val), n_frac - y.n_frac)
 
     if not isinstance(x, Fxp):
         x = Fxp(x)
